@@ -174,7 +174,7 @@ def run(chk):
         rng.shuffle(behs)
         behs = behs[:1500 if chk.quick else 12000]
         if not chk.quick:
-            behs += c08.generate(chk, op, 5, simulate=20000, depth=26, label="GqlSched -simulate %s nodes<=5" % op)[:6000]
+            behs += c08.generate(chk, op, 5, simulate=4000, depth=26, label="GqlSched -simulate %s nodes<=5" % op)[:6000]
         c08.decorate(behs, rng)
         res = par.pmap(c08._worker, behs)
         for out, n, lg in res:
